@@ -35,7 +35,7 @@ func (c06) Meta() fw.Meta {
 			"both libraries run on the same virtual clock (whispertool.Now / explicit now, whisper.Now); clock domain as C01 but below 2^31 + 2^30 so that go-whisper's int arithmetic and the 32-bit file fields agree",
 			"go-whisper at the version pinned by the repository's go.mod is the reference",
 		},
-		Obligations: []string{"format_checks", "nonempty_slots_checked", "metadata_compared", "windows_compared", "whispertool_written_sessions", "gowhisper_written_sessions", "alternating_files", "values_compared_non_nan", "stale_or_empty_compared", "far_jumps", "windows_from_epoch_or_2_31_back", "reader_clock_behind_windows", "created_over_existing_longer_file", "cli_written_files_checked", "cli_created_with_nothing_to_copy"},
+		Obligations: []string{"queued_writer_sessions", "format_checks", "nonempty_slots_checked", "metadata_compared", "windows_compared", "whispertool_written_sessions", "gowhisper_written_sessions", "alternating_files", "values_compared_non_nan", "stale_or_empty_compared", "far_jumps", "windows_from_epoch_or_2_31_back", "reader_clock_behind_windows", "created_over_existing_longer_file", "cli_written_files_checked", "cli_created_with_nothing_to_copy"},
 	}
 }
 
@@ -173,6 +173,11 @@ func (c06) Run(c *fw.Ctx) {
 	if c.Index%8 == 6 {
 		c06CLI(c)
 		return
+	}
+	if c.Index%8 == 1 {
+		if !c06Queued(c) {
+			return
+		}
 	}
 	l := genLayout(r, layoutOpts{maxPoints0: 500})
 	now := genClock(r, l)
@@ -481,4 +486,72 @@ func (c06) Run(c *fw.Ctx) {
 	if c.Index < 64 {
 		c.Sample(fw.J{"layout": l.String(), "clock": now, "mode": []string{"whispertool-only", "go-whisper-only", "alternating"}[mode], "creator": creator, "ops": ops[:minI(len(ops), 8)]})
 	}
+}
+
+// c06Queued: a file written by two sessions of which the second started (Open) while the creating one was still
+// at work and had to queue behind it. The file both leave behind must be a classic Whisper file that go-whisper
+// reads like whispertool does.
+func c06Queued(c *fw.Ctx) bool {
+	r := c.Rng
+	l := genLayout(r, layoutOpts{minArch: 1, maxArch: 3, maxPoints0: 3000, multiPage: true, smallRatios: true})
+	now := genClock(r, l)
+	if now > 1<<31 {
+		now = 1500000000 + int64(r.Intn(500000000))
+	}
+	path := filepath.Join(c.TmpDir(), "c06-queued.wsp")
+	a, err := createFile(path, l)
+	if err != nil {
+		c.Violationf("create-failed", fw.J{"layout": l, "err": err.Error()}, "Create failed: %v", err)
+		return false
+	}
+	var b *wt.Whisper
+	var berr error
+	done := make(chan struct{})
+	go func() { b, berr = wt.Open(path); close(done) }()
+	time.Sleep(25 * time.Millisecond)
+	// the creator writes its first point (the base) and points all over the ring, then syncs and leaves
+	a0 := l.Archs[0]
+	for j := 0; j < 30; j++ {
+		t := inRangeTime(r, now, a0.Ret())
+		if j == 0 {
+			t = now - a0.Ret()/2
+		}
+		if err := a.UpdatePointForArchive(0, u32(t), wt.Value(float64(j)+0.5), u32(now)); err != nil {
+			c.Violationf("write-error", fw.J{"layout": l, "err": err.Error()}, "write failed: %v", err)
+			a.Close()
+			return false
+		}
+	}
+	serr := a.Sync()
+	a.Close()
+	select {
+	case <-done:
+	case <-time.After(60 * time.Second):
+		c.Violationf("queued-open-hangs", fw.J{"layout": l}, "an Open that queued behind the creating handle did not return within 60 s after that handle was closed")
+		return false
+	}
+	if serr != nil || berr != nil {
+		c.Violationf("queued-session-error", fw.J{"layout": l, "sync_err": fmt.Sprint(serr), "open_err": fmt.Sprint(berr)}, "creator Sync: %v, queued Open: %v", serr, berr)
+		return false
+	}
+	// the second session writes its own points (one of them the newest) and syncs
+	for j := 0; j < 5; j++ {
+		t := inRangeTime(r, now, a0.Ret())
+		if j == 0 {
+			t = now
+		}
+		if err := b.UpdatePointForArchive(0, u32(t), wt.Value(float64(100+j)), u32(now)); err != nil {
+			c.Violationf("write-error", fw.J{"layout": l, "err": err.Error()}, "write failed: %v", err)
+			b.Close()
+			return false
+		}
+	}
+	serr = b.Sync()
+	b.Close()
+	if serr != nil {
+		c.Violationf("queued-session-error", fw.J{"layout": l, "sync_err": fmt.Sprint(serr)}, "second session Sync: %v", serr)
+		return false
+	}
+	c.Count("queued_writer_sessions", 1)
+	return c06FormatCheck(c, path, l, fw.J{"scenario": "creator session + a session that queued behind it", "clock": now})
 }
